@@ -70,13 +70,14 @@
 //! ---- annotated ----
     pub fn invert(&self, x: u32, div: &Dividers) -> (res: u32)
         requires
-            div.wf(), div.pv() < 0x1000_0000, self.wf(div.pv()),
+            div.wfa(), div.pv() < 0x1000_0000, div.pv() != 2 ==> self.wf(div.pv()),
             0 < x, (x as int) < div.pv(), coprime(x as nat, div.pv() as nat),
         ensures
             (res as int) < div.pv(), cong(res as int * x as int, 1, div.pv()),
     {
-        proof { div.lemma_wf_facts(); }
+        proof { div.lemma_wfa_cases(); if div.p != 2 { div.lemma_wf_facts(); } }
         if div.p == 2 {
+            proof { assert(x == 1); assert(1int % 2 == 1); }
             return x % 2;
         }
         proof {
